@@ -677,6 +677,12 @@ func run(c *vf.Ctx) {
 				}
 				for _, d := range diffs {
 					feat := m.feature(d.path, fileMode)
+					// a path created by go-git Move carries the index entry of its source: findings that depend on the entry
+					// (racily-clean stat data, CRLF blob) are decided on the source path
+					origin := d.path
+					for strings.HasSuffix(origin, ".moved") && m.logged("gogit-move-to:"+origin) {
+						origin = strings.TrimSuffix(origin, ".moved")
+					}
 					key := fmt.Sprintf("status:git=%s:gogit=%s:%s", strings.ReplaceAll(d.git, " ", "_"), strings.ReplaceAll(d.gogit, " ", "_"), feat)
 					switch {
 					case d.gogit == "??" && strings.HasPrefix(ignoredBy[d.path], "info-exclude:"):
@@ -686,16 +692,16 @@ func run(c *vf.Ctx) {
 					case !fileMode && len(d.git) == 2 && len(d.gogit) == 2 && norm(d.git)[0] == d.gogit[0] && d.git[1] == ' ' && d.gogit[1] == 'M':
 						key = "status:filemode-false:exec-bit-difference-reported-modified"
 					case autocrlf != "" && len(d.git) == 2 && len(d.gogit) == 2 && d.git[1] == ' ' && d.gogit[1] == 'M' && norm(d.git)[0] == d.gogit[0] &&
-						bytes.Contains(headTree[d.path].Content, []byte("\r\n")) && (fileMode || !strings.Contains(feat, "chmod")) && diskEquals(filepath.Join(D, filepath.FromSlash(d.path)), headTree[d.path].Content):
+						bytes.Contains(headTree[origin].Content, []byte("\r\n")) && (fileMode || !strings.Contains(feat, "chmod")) && diskEquals(filepath.Join(D, filepath.FromSlash(d.path)), headTree[origin].Content):
 						key = "status:autocrlf:unchanged-file-whose-blob-has-crlf-reported-modified"
 					case d.git == "D?" && d.gogit == "??":
 						key = "status:staged-deletion-still-on-disk:staging-D-reported-untracked"
+					case m.logged("edit-samesize-racy:"+origin) && norm(d.git)[1] == 'M' && d.gogit[1] == ' ' && norm(d.git)[0] == d.gogit[0] && m.gogitWroteIndexAfter("edit-samesize-racy:"+origin):
+						key = "status:racy-samesize-edit-then-index-written-by-gogit:reported-unmodified"
 					case strings.HasPrefix(feat, "gogit-move-to") && d.git[0] == d.gogit[0] && norm(d.git)[1] == 'M' && d.gogit[1] == ' ':
 						key = "status:gogit-move-of-locally-modified-file:worktree-M-missed"
 					case m.logged("git-add-N:" + d.path):
 						key = fmt.Sprintf("status:intent-to-add:git=%s:gogit=%s", strings.ReplaceAll(d.git, " ", "_"), strings.ReplaceAll(d.gogit, " ", "_"))
-					case m.logged("edit-samesize-racy:"+d.path) && norm(d.git)[1] == 'M' && d.gogit[1] == ' ' && norm(d.git)[0] == d.gogit[0] && m.gogitWroteIndexAfter("edit-samesize-racy:"+d.path):
-						key = "status:racy-samesize-edit-then-index-written-by-gogit:reported-unmodified"
 					}
 					if seen[key] || reported[key] {
 						continue
